@@ -93,6 +93,15 @@ def replay_conv(cfgs):
                     v = "convention %r / Cartesian order %r not honoured: max deviation %.3g" % (labs, c["cart"], dev)
                 elif right.shape != want.T.shape or not np.abs(right - want.T).max() <= 1e-10:
                     v = "'right' form is not the transpose of the 'left' form for %r" % (labs,)
+            if v is None and valid:
+                # the returned matrices belong to the caller: scaling them in place must not change what the same request
+                # returns afterwards (a result that is a view of a cache entry would)
+                keep_l, keep_r = left.copy(), right.copy()
+                left *= 3.0
+                right += 1.0
+                l2, r2 = gen(l, order, labs, "left"), gen(l, order, labs, "right")
+                if l2.shape != keep_l.shape or not np.array_equal(l2, keep_l) or not np.array_equal(r2, keep_r):
+                    v = "generate_transformation for %r answers differently after the caller changed an earlier result in place" % (labs,)
         except (ValueError, TypeError) as exc:
             if valid:
                 v = "valid convention %r rejected: %r" % (labs, exc)
